@@ -82,7 +82,38 @@ pub fn sum2_effect<State, Action>(
     core::mem::forget(dispatcher);
     let st: St = unsafe { core::mem::transmute_copy(state) };
     let act: u8 = unsafe { core::mem::transmute_copy(action) };
-    log2(sid(this), PH_EFFECT, st, act);
+    let s = sid(this);
+    let j = log2(s, PH_EFFECT, st, act);
+    cross_dispatch(s, j);
+}
+
+/// G-two-cross: a callback of store A (running on A's reducer thread) dispatches to store B
+pub static mut CROSS_ON: bool = false;
+pub static mut CROSS_X: u8 = 0;
+/// 0 = not called, 1 = Ok, 2 = Err
+pub static mut CROSS_RES: u8 = 0;
+pub static mut CROSS_SERVED: u8 = 0;
+fn cross_dispatch(s: usize, j: usize) {
+    unsafe {
+        if CROSS_ON && s == 0 && j == 0 && CROSS_RES == 0 {
+            if let Some(b) = G2[1].as_ref() {
+                let r = StoreImpl::dispatch(b, CROSS_X);
+                CROSS_RES = if r.is_ok() { 1 } else { 2 };
+                core::mem::forget(r);
+            }
+        }
+    }
+}
+/// B's reducer takes the head of B's queue when somebody waits for room in it
+pub fn cross_block(kind: u8, obj: usize) {
+    unsafe {
+        if kind == crossbeam::hooks::SEND && obj == 1 && CROSS_SERVED == 0 {
+            CROSS_SERVED = 1;
+            crossbeam::channel::model_take_head::<crate::store_impl::ActionOp<Act>>(1);
+            return;
+        }
+    }
+    panic!("VERIF-DEADLOCK: blocked with nothing to unblock");
 }
 pub fn sum2_notify<State, Action>(
     this: &StoreImpl<State, Action>,
@@ -122,7 +153,8 @@ pub struct Probe2 {
 impl crate::Middleware<St, Act> for Probe2 {
     fn before_effect(&self, action: &Act, state: &St, _e: &mut Vec<Effect<Act>>, d: Arc<dyn Dispatcher<Act>>) -> Result<crate::MiddlewareOp, crate::StoreError> {
         core::mem::forget(d);
-        log2(self.s, PH_EFFECT, *state, *action);
+        let j = log2(self.s, PH_EFFECT, *state, *action);
+        cross_dispatch(self.s, j);
         Ok(crate::MiddlewareOp::ContinueAction)
     }
     fn before_dispatch(&self, action: &Act, state: &St, d: Arc<dyn Dispatcher<Act>>) -> Result<crate::MiddlewareOp, crate::StoreError> {
@@ -144,6 +176,13 @@ impl Subscriber<St, Act> for SharedSub {
 }
 
 fn mk2(s: usize, cap: usize, init: St) -> Arc<Store> {
+    unsafe {
+        if s == 0 {
+            CROSS_ON = false;
+            CROSS_RES = 0;
+            CROSS_SERVED = 0;
+        }
+    }
     // both stores: same (default) name, same reducer type, same configuration shape
     let b = crate::StoreBuilder::new(init)
         .with_capacity(cap)
@@ -278,6 +317,65 @@ two_harness! { #[kani::unwind(7)] fn g_two_stop() { two(false, 2, 1); } }
 two_harness! { #[kani::unwind(7)] fn g_two_drop() { two(true, 1, 2); } }
 two_harness! { #[kani::unwind(7)] fn g_two_stop_idle_b() { two(false, 2, 0); } }
 two_harness! { #[kani::unwind(7)] fn g_two_drop_2_2() { two(true, 2, 2); } }
+
+
+// -----------------------------------------------------------------------------------------
+// G-two-cross: a callback of store A, running on A's reducer thread, dispatches to store B
+// whose BlockOnFull queue is full.  For B this is an ordinary client: the call waits until
+// B's reducer makes room and is then accepted (no error, nothing dropped, B reduces it).
+// -----------------------------------------------------------------------------------------
+fn two_cross() {
+    rt::reset_all();
+    script::reset();
+    crossbeam::hooks::set_native(Some(rt::default_yield), Some(cross_block));
+    unsafe {
+        PH2 = [[[PH0; 3]; MAXA]; 2];
+    }
+    let ia: St = kani::any();
+    let ib: St = kani::any();
+    let a = mk2(0, 4, ia);
+    let b = mk2(1, 1, ib);
+    unsafe {
+        core::ptr::write(&mut G2[0], Some(a.clone()));
+        core::ptr::write(&mut G2[1], Some(b.clone()));
+        let mut j = 0;
+        while j < MAXA {
+            NEED2[0][j] = kani::any();
+            NEED2[1][j] = kani::any();
+            OUT2[0][j] = kani::any();
+            OUT2[1][j] = kani::any();
+            j += 1;
+        }
+        CROSS_ON = true;
+        CROSS_X = kani::any();
+    }
+    let mut xa = [0u8; MAXA];
+    xa[0] = kani::any();
+    core::mem::forget(StoreImpl::dispatch(&b, kani::any())); // B's queue is full (capacity 1)
+    core::mem::forget(StoreImpl::dispatch(&a, xa[0]));
+    let gb0 = crossbeam::channel::ghost(1);
+    a.stop();
+    rt::run_loop(0);
+    let a_done = rt::now();
+    let gb1 = crossbeam::channel::ghost(1);
+    chk!(19, unsafe { CROSS_RES } == 1, "a dispatch to store B from a callback on store A's reducer thread is an ordinary client call for B: under BlockOnFull it waits for room and is accepted");
+    chk!(19, gb1.n_send_waited == gb0.n_send_waited + 1 && unsafe { CROSS_SERVED } == 1 && gb1.len == 1 && gb1.max_len <= 1, "it waited for B's reducer, then took exactly the freed slot");
+    chk!(19, b.metrics.error_occurred.load(Ordering::SeqCst) == 0 && b.metrics.action_dropped.load(Ordering::SeqCst) == 0, "B counts no error and no drop for it");
+    check_store(0, 1, &xa, ia, a_done);
+    // (x now sits in B's queue; that B reduces what it accepted is the single-store claim)
+    unsafe {
+        core::ptr::write(&mut G2[0], None);
+        core::ptr::write(&mut G2[1], None);
+    }
+    core::mem::forget(a);
+    core::mem::forget(b);
+    finish!(19);
+}
+two_harness! {
+    #[kani::stub(crossbeam::hooks::block, crate::verif_kani::g_two::cross_block)]
+    #[kani::unwind(7)]
+    fn g_two_cross_dispatch_full_b() { two_cross(); }
+}
 
 two_harness! { #[kani::unwind(7)] fn twin_g_two() {
     rt::reset_all();
